@@ -230,5 +230,8 @@ func (s *Swarm) addConn(c *Conn) {
 func (s *Swarm) deleteConn(c *Conn) {
 	s.mu.Lock()
 	defer s.mu.Unlock()
-	delete(s.conns, c.RemoteAddr().Key())
+	// only c's own entry: a newer connection may have taken the key
+	if s.conns[c.RemoteAddr().Key()] == c {
+		delete(s.conns, c.RemoteAddr().Key())
+	}
 }
